@@ -72,11 +72,55 @@ func checkItem(c *ev.Ctx, r *rand.Rand, it *docs.Item, wmin int) {
 	for i := range want {
 		want[i] = i + 1
 	}
-	if fmt.Sprint(shown) != fmt.Sprint(want) {
+	broken := false
+	var unlabelled []string
+	for _, l := range it.Links {
+		if l.Kind == "attachment:broken" {
+			broken = true
+		} else if l.Label == "" {
+			unlabelled = append(unlabelled, l.Target)
+		}
+	}
+	// an attachment without a usable label is displayed as an error and is not a link: then only label -> target agreement is checked
+	if !broken && fmt.Sprint(shown) != fmt.Sprint(want) {
 		fail("numbers-not-1..N"+suffix, "numbers displayed are %v, expected 1..%d (one per link-bearing element)", shown, n)
 		return
 	}
+	usedNumbers := map[int]bool{}
 	for _, l := range it.Links {
+		if l.Label == "" {
+			continue
+		}
+		if ns := numOf[l.Label]; len(ns) == 1 {
+			usedNumbers[ns[0]] = true
+		}
+	}
+	if !broken && len(unlabelled) > 0 {
+		// the numbers not attached to any label belong to the elements without visible text: together they must open exactly those targets
+		var got []string
+		for k := 1; k <= n; k++ {
+			if usedNumbers[k] {
+				continue
+			}
+			g, _, ok, p := selectLink(it, k)
+			if p != "" || !ok {
+				fail("number-opens-nothing:unlabelled", "number %d is displayed (on an element without text) but opens nothing (%s)", k, p)
+				return
+			}
+			got = append(got, g)
+		}
+		sort.Strings(got)
+		wantT := append([]string{}, unlabelled...)
+		sort.Strings(wantT)
+		if fmt.Sprint(got) != fmt.Sprint(wantT) {
+			fail("wrong-target:unlabelled", "the numbers without a label open %v, the elements without visible text point to %v", got, wantT)
+			return
+		}
+	}
+	for _, l := range it.Links {
+		if l.Label == "" {
+			continue
+		}
 		nums := numOf[l.Label]
 		if len(nums) != 1 {
 			fail("label-without-number"+suffix, "label %s (%s) is displayed with numbers %v, expected exactly one", l.Label, l.Kind, nums)
@@ -104,6 +148,9 @@ func checkItem(c *ev.Ctx, r *rand.Rand, it *docs.Item, wmin int) {
 	c.Count("links_checked", int64(n))
 	// numbers outside 1..N open nothing
 	for _, k := range []int{0, -1, n + 1, n + 2, math.MaxInt32, math.MinInt32, -n} {
+		if broken && k > 0 && k <= n+2 {
+			continue
+		}
 		if k >= 1 && k <= n {
 			continue
 		}
